@@ -15,7 +15,7 @@ func HandlePrograms(fs string) []Prog {
 
 	// steps on a file handle / directory handle
 	fileSteps := []fsx.Call{
-		{Op: "H.Read", N: 2}, {Op: "H.ReadAt", N: 2, M: 0}, {Op: "H.Write", Data: "W"}, {Op: "H.WriteAt", Data: "V", N: 0},
+		{Op: "H.Read", N: 2}, {Op: "H.ReadAt", N: 2, M: 1}, {Op: "H.Write", Data: "W"}, {Op: "H.WriteAt", Data: "V", N: 0},
 		{Op: "H.Seek", N: 0, M: 0}, {Op: "H.Truncate", N: 1}, {Op: "H.Stat"}, {Op: "H.Sync"}, {Op: "H.Name"}, {Op: "H.Close"},
 	}
 	dirSteps := []fsx.Call{
